@@ -362,6 +362,12 @@ static void run1(Slot<T> &s, const Label &lb, Result &r) {
     } else {
       guarded(lb, r, [&] { { auto it_ = v.emplace(v.begin() + lb.pos, lb.v); r.idx(it_ - v.begin()); } });
     }
+  } else if (op == "emplaceF" && lb.src > 0) {
+    const auto &field = v[static_cast<SZ>(lb.src - 1)].v;  // reference to a member of an own element
+    guarded(lb, r, [&] { { auto it_ = v.emplace(v.begin() + lb.pos, field); r.idx(it_ - v.begin()); } });
+  } else if (op == "emplaceBackF" && lb.src > 0) {
+    const auto &field = v[static_cast<SZ>(lb.src - 1)].v;
+    guarded(lb, r, [&] { r.val(v.emplace_back(field).v); });
   } else if (op == "insertN") {
     prepArg();
     guarded(lb, r, [&] { { auto it_ = v.insert(v.begin() + lb.pos, static_cast<SZ>(lb.n), *arg); r.idx(it_ - v.begin()); } });
@@ -607,6 +613,8 @@ static bool exists(int c) {
   return e;
 }
 
+static bool g_lastInjected = false;
+
 static void execute(const Label &lb) {
   {
     Internal g;
@@ -636,6 +644,7 @@ static void execute(const Label &lb) {
     visit(lb.c, [&](auto &a) { visit(lb.d, [&](auto &b) { run2(a, b, lb, r); }); });
   }
   g_inflightValid = 0;
+  g_lastInjected = r.k == "exc" && (r.s == "injected" || r.s == "bad_alloc");
   emit(lb, r);
 }
 
@@ -762,15 +771,29 @@ int main(int argc, char **argv) {
       for (size_t i = next; i < end; ++i) {
         *progress = static_cast<long>(i);
         alarm(30);
-        for (const std::string &ln : execs[i]) {
-          Label lb;
-          if (!parseLine(ln, lb)) {
-            fprintf(stderr, "bad script line: %s\n", ln.c_str());
-            _exit(2);
+        // A line starting with '!' is a fault probe: the execution is repeated with the k-th throwing-capable event of
+        // that call failing, k = 1, 2, ... until the call completes without a failure being injected.
+        bool probe = false;
+        for (const std::string &ln : execs[i]) probe = probe || ln[0] == '!';
+        for (int k = probe ? 1 : 0; k <= 64; ++k) {
+          bool injected = false;
+          for (const std::string &ln : execs[i]) {
+            Label lb;
+            bool bang = ln[0] == '!';
+            bool opt = ln[0] == '?';  // epilogue of a probe: only if the container (still) exists
+            if (!parseLine(bang || opt ? ln.substr(1) : ln, lb)) {
+              fprintf(stderr, "bad script line: %s\n", ln.c_str());
+              _exit(2);
+            }
+            if (bang) lb.k = k;
+            if (opt && !(lb.c >= 1 && lb.c <= K && exists(lb.c))) continue;
+            g_lastInjected = false;
+            execute(lb);
+            if (bang) injected = g_lastInjected;
           }
-          execute(lb);
+          finishExecution();
+          if (!probe || !injected) break;
         }
-        finishExecution();
       }
       alarm(0);
       OUT.flush();
